@@ -54,4 +54,55 @@ theorem no_hints_identity (isMethod : Bool) (params : List (Name × Hint))
       simp [hintsOf, fromHint, this]
   simp [this]
 
+/-! ## the order in which the caller WRITES its arguments does not matter
+
+`signature.bind` hands the wrapper a mapping from parameter name to value; the model receives it as an association list.  Positional,
+keyword, mixed, reversed-keyword calls of one function with the same values differ only in the order of that list (names are distinct). -/
+
+/-- looking a name up does not depend on the order of an association list with distinct keys -/
+theorem lookupArg_perm {l l' : List (Name × Value)} (hp : l.Perm l') (hn : (l.map Prod.fst).Nodup) (n : Name) :
+    lookupArg l n = lookupArg l' n := by
+  induction hp with
+  | nil => rfl
+  | cons x _ ih =>
+    obtain ⟨k, v⟩ := x
+    simp only [List.map_cons, List.nodup_cons] at hn
+    simp only [lookupArg]
+    split
+    · rfl
+    · exact ih hn.2
+  | swap x y l =>
+    obtain ⟨k₁, v₁⟩ := x
+    obtain ⟨k₂, v₂⟩ := y
+    simp only [List.map_cons, List.nodup_cons, List.mem_cons, not_or] at hn
+    simp only [lookupArg]
+    by_cases h1 : k₁ = n
+    · by_cases h2 : k₂ = n
+      · exact absurd (h2.trans h1.symm) hn.1.1
+      · simp [h1, h2]
+    · by_cases h2 : k₂ = n <;> simp [h1, h2]
+  | trans h₁ _ ih₁ ih₂ =>
+    have hn' := (List.Perm.map Prod.fst h₁).nodup_iff.mp hn
+    exact (ih₁ hn).trans (ih₂ hn')
+
+/-- the entries queued for the parameters depend on the bound arguments only through the value of each name -/
+theorem addParams_perm {args args' : List (Name × Value)} (hp : args.Perm args') (hn : (args.map Prod.fst).Nodup)
+    (ps : List (Name × HintAnns)) : addParams args ps = addParams args' ps := by
+  induction ps with
+  | nil => rfl
+  | cons p ps ih =>
+    obtain ⟨n, anns⟩ := p
+    simp only [addParams, lookupArg_perm hp hn n, ih]
+
+/-- **C16 / C14: the call style does not matter** — two calls of a decorated function whose bound arguments are the same set of
+    (name, value) pairs, written in any order (positional, by keyword, keywords reversed), have the same trace: same verdict, same
+    report, same number of executions of the body -/
+theorem call_style_does_not_matter (acc : Acc) (d : FuncDecl) (p : Provider) {args args' : List (Name × Value)} (b : BodyResult)
+    (hp : args.Perm args') (hn : (args.map Prod.fst).Nodup) :
+    callWrapped acc d p args b = callWrapped acc d p args' b := by
+  unfold callWrapped argsPhase
+  rw [addParams_perm hp hn]
+
+example : lookupArg [(['x'], .none), (['y'], .other)] ['y'] = lookupArg [(['y'], .other), (['x'], .none)] ['y'] := rfl
+
 end Dltype.C16
